@@ -201,10 +201,25 @@ def r18_3(ctx):
         err_only = fn.reachable_from(err_t) - fn.reachable_from(ok_t)
         payload = _err_payload_locals(fn, dest)
         ret_defs = [d for d in fn.defs.get(0, []) if d[1] in err_only]
+        if not ret_defs and payload:
+            # the pointer is selected on the two edges and the reference built after the join
+            # (`let published = match cas { Ok(_) => fresh, Err(winner) => winner }; Some(&*published)`): the definition
+            # of the selected local on the losing edge is what has to come from the payload
+            rsl = set()
+            for d in fn.defs.get(0, []):
+                ls0 = [op_local(a) for a in d[2]["args"]] if d[0] == "call" else [p[0] for p in [op_place(o) for o in d[3]["rv"].get("f", [])] if p]
+                rsl |= backward_slice(fn, [l for l in ls0 if l is not None])[0]
+            for x in rsl:
+                for d in fn.defs.get(x, []):
+                    if d[1] in err_only and len(fn.defs.get(x, [])) >= 2:
+                        ret_defs.append(("sel", d[1], d))
         good = bool(ret_defs) and bool(payload)
         detail = []
         for d in ret_defs:
-            if d[0] == "call":
+            if d[0] == "sel":
+                dd = d[2]
+                ls = [op_local(a) for a in dd[2]["args"]] if dd[0] == "call" else [p[0] for p in rv_places(dd[3]["rv"])]
+            elif d[0] == "call":
                 ls = [op_local(a) for a in d[2]["args"]]
             else:
                 ls = [p[0] for p in [op_place(o) for o in d[3]["rv"].get("f", [])] if p]
@@ -418,13 +433,22 @@ def r18_7(ctx):
                 cnt[key] += 1
                 where.setdefault(key, f.loc(t["ln"]))
     ctx.floor("R18.7", "ownership primitives in the lazy caches", sum(cnt.values()), 6)
-    for (fid, nm), c in sorted(cnt.items()):
-        hit = [(k, v) for k, v in REFCOUNT_AUDIT.items() if fid.endswith(k[0]) and k[1] == nm]
-        allowed = hit[0][1][0] if hit else 0
-        kind = hit[0][1][1] if hit else ("acquire" if nm in ("increment_strong_count", "into_raw", "forget", "leak") else "release")
-        ctx.ob("R18.7", f"{_sh(fid)}:{nm}", c <= allowed, where[(fid, nm)],
-               f"{c} {kind} site(s), audited {allowed}: {hit[0][1][2]}" if hit and c <= allowed else
-               f"{c} {nm} site(s) in {_sh(fid)}, {allowed} audited: " + ("the cache gains an owner that no Drop gives back (the decoding is never freed)" if kind == "acquire" else "an owner is given back twice (the decoding is freed under a reader)"))
+    # the balance is kept per function and direction, whichever primitive spells it: `decrement_strong_count(p)` and
+    # `drop(Arc::from_raw(p))` give one share back alike
+    kind_of = lambda nm: "acquire" if nm in ("increment_strong_count", "into_raw", "forget", "leak") else "release"
+    per = collections.Counter()
+    prims = collections.defaultdict(list)
+    for (fid, nm), c in cnt.items():
+        per[(fid, kind_of(nm))] += c
+        prims[(fid, kind_of(nm))].append(nm)
+    for (fid, kind), c in sorted(per.items()):
+        hit = [(k, v) for k, v in REFCOUNT_AUDIT.items() if fid.endswith(k[0]) and v[1] == kind]
+        allowed = sum(v[0] for k, v in hit)
+        nm = "/".join(sorted(set(prims[(fid, kind)])))
+        w = where[(fid, prims[(fid, kind)][0])]
+        ctx.ob("R18.7", f"{_sh(fid)}:{kind}", c <= allowed, w,
+               f"{c} {kind} site(s) ({nm}), audited {allowed}: {hit[0][1][2]}" if hit and c <= allowed else
+               f"{c} {kind} site(s) ({nm}) in {_sh(fid)}, {allowed} audited: " + ("the cache gains an owner that no Drop gives back (the decoding is never freed)" if kind == "acquire" else "an owner is given back twice (the decoding is freed under a reader)"))
 
 
 RULES = [("R18.1", r18_1), ("R18.2", r18_2), ("R18.3", r18_3), ("R18.4", r18_4), ("R18.5", r18_5), ("R18.6", r18_6), ("R18.7", r18_7)]
